@@ -56,6 +56,9 @@ func TimeOf(t int) int64 { return BaseTime + int64(t)*StepTime }
 func IdxOf(ts int64) int { return int((ts - BaseTime) / StepTime) }
 func FloatOf(code int64) float64 { return float64(code) / 4 }
 
+// MaxRowsPerSegment (config max-rows-per-segment) used by Init; 0 = the engine default (1000). Set before Init.
+var MaxRowsPerSegment int
+
 var initOnce sync.Once
 var engOpts engine.EngineOptions
 
@@ -95,6 +98,7 @@ func Init(work string) error {
 		engOpts.MaxConcurrentCompactions = 4
 		engOpts.MaxFullCompactions = 2
 		engOpts.OpenShardLimit = 8
+		engOpts.MaxRowsPerSegment = MaxRowsPerSegment
 		engOpts.ReadPageSize = "32kb"
 		engOpts.ReadMetaPageSize = []string{"4kb", "32kb"}
 		if _, err = engine.NewEngine(filepath.Join(work, "eng-data"), filepath.Join(work, "eng-wal"), engOpts, nil); err != nil {
@@ -378,9 +382,10 @@ func (s *Shard) DumpOrdered(q Query) (map[int][]OutRow, []Arrival, error) {
 
 // FileSeries / File: the layout as the store reports it.
 type FileSeries struct {
-	S    int `json:"s"`
-	MinT int `json:"min"`
-	MaxT int `json:"max"`
+	S        int `json:"s"`
+	MinT     int `json:"min"`
+	MaxT     int `json:"max"`
+	Segments int `json:"segs,omitempty"`
 }
 type File struct {
 	Order  bool         `json:"order"`
@@ -408,7 +413,7 @@ func (s *Shard) Files() ([]File, error) {
 	for _, vf := range vfs {
 		f := File{Order: vf.Order, Level: int(vf.Level), Seq: vf.Seq, Merge: int(vf.Merge), Extent: int(vf.Extent)}
 		for _, fs := range vf.Series {
-			f.Series = append(f.Series, FileSeries{S: idx[fs.Sid], MinT: IdxOf(fs.MinT), MaxT: IdxOf(fs.MaxT)})
+			f.Series = append(f.Series, FileSeries{S: idx[fs.Sid], MinT: IdxOf(fs.MinT), MaxT: IdxOf(fs.MaxT), Segments: fs.Segments})
 		}
 		sort.Slice(f.Series, func(a, b int) bool { return f.Series[a].S < f.Series[b].S })
 		out = append(out, f)
@@ -475,4 +480,19 @@ func Reverse(a []OutRow) []OutRow {
 		out[len(a)-1-i] = a[i]
 	}
 	return out
+}
+
+// ---- statement-level selects (C09) ----
+
+var FieldQLMap = func() map[string]influxql.DataType {
+	m := map[string]influxql.DataType{}
+	for i, n := range FieldNames {
+		m[n] = FieldQL[i]
+	}
+	return m
+}()
+
+// Select runs an InfluxQL SELECT on the shard's store-side reader (engine.VerifShard.Select).
+func (s *Shard) Select(sql string) ([]engine.VerifAggRow, *engine.VerifSelectInfo, error) {
+	return s.V.Select(sql, FieldQLMap, []string{"host", "zone"})
 }
